@@ -1,3 +1,98 @@
 import Driver.Common
-/-! Model driver for C20 — not built yet. -/
-def main (_args : List String) : IO Unit := pure ()
+import Logrange.Model.DateParser
+import Logrange.Generated.C20
+/-! Model driver for C20 (timestamp text → instant). Requests (byte strings hex, `-` = empty):
+
+* `col <nowY> <nowM> <nowD> <text>`      — the collector's default parser (`date.KnownFormats`, regenerated)
+* `lql <nowY> <nowM> <nowD> <text>`      — `parseLqlDateTime` (LQL list and switches regenerated)
+* `lqlnl <nowY> <nowM> <nowD> <text>`    — the same with the format list seeing the text as written (the proposed repair F19a)
+* `one <fmt> <nowY> <nowM> <nowD> <text>` — `date.NewParser(fmt).Parse(text)`
+* `fmt <fmt>`                            — what `NewParser` derives from a format: layout, regexp text, flags
+* `tparse <layout> <value>`              — `time.Parse(layout, value)` (Local = UTC)
+* `tformat <layout> Y M D h m s ns wd`   — `time.Format` for the covered elements
+* `find <regexp> <text>`                 — unanchored leftmost-first search, the matched substring
+
+Answers: `ok <fmtIndex> Y M D h m s ns <instOff> <dispOff>` (instant = `time.Date(Y..ns, UTC)` − instOff seconds, shown at
+dispOff), `err`, `unsupported <idx> <what>`; for lql also `rel <unit> <num> ELSE <answer>`, `const <k>`, `nano <n>`.
+-/
+open Go Logrange.Date Driver
+namespace C20Driver
+
+def gterms : List Term := Logrange.Generated.C20.terms
+def colFmts : List CFormat := Logrange.Generated.C20.collectorFormats.map (compile gterms)
+def lqlFmts : List CFormat := Logrange.Generated.C20.lqlFormats.map (compile gterms)
+def gadj : Adjust := { year := Logrange.Generated.C20.formatParseAdjustsYear, date := Logrange.Generated.C20.formatParseAdjustsDate }
+def gcfg : LqlCfg :=
+  { lower := Logrange.Generated.C20.lqlLowerCases, trim := Logrange.Generated.C20.lqlTrimsBlanks,
+    fmtLower := Logrange.Generated.C20.lqlLowerCases && Logrange.Generated.C20.lqlFormatsSeeLowerCased, adj := gadj }
+
+def showCivil (c : Civil) : String :=
+  let (io, d) : Int × Int := match c.zone with
+    | .utc => (0, 0) | .dflt => (0, 0) | .offset o => (o, o) | .named _ d => (0, d)
+  s!"{c.year} {c.month} {c.day} {c.hour} {c.min} {c.sec} {c.nsec} {io} {d}"
+
+def showP : PRes → String
+  | .ok i c => s!"ok {i} {showCivil c}"
+  | .err => "err"
+  | .unsupported i w => s!"unsupported {i} {w}"
+
+def showL : LqlRes → String
+  | .rel u num e => s!"rel {u.toNat} {hex num} ELSE {showL e}"
+  | .const k => s!"const {k}"
+  | .abs i c => s!"ok {i} {showCivil c}"
+  | .unixNano n => s!"nano {n}"
+  | .err => "err"
+  | .unsupported i w => s!"unsupported {i} {w}"
+
+def nowOf (y m d : String) : Option Now :=
+  match y.toInt?, m.toInt?, d.toInt? with
+  | some y, some m, some d => some ⟨y, m, d⟩
+  | _, _, _ => none
+
+def b2s (b : Bool) : String := if b then "1" else "0"
+
+def step (_ : Unit) (toks : List String) : Unit × String :=
+  match toks with
+  | ["col", y, m, d, t] =>
+    (match nowOf y m d with
+     | some now => ((), showP (parseFirst gadj colFmts now (unhex t)))
+     | none => ((), "bad-op"))
+  | ["lql", y, m, d, t] =>
+    (match nowOf y m d with
+     | some now => ((), showL (parseLql gcfg lqlFmts now (unhex t)))
+     | none => ((), "bad-op"))
+  | ["lqlnl", y, m, d, t] =>
+    (match nowOf y m d with
+     | some now => ((), showL (parseLql { gcfg with fmtLower := false } lqlFmts now (unhex t)))
+     | none => ((), "bad-op"))
+  | ["one", f, y, m, d, t] =>
+    (match nowOf y m d with
+     | some now => ((), showP (parseFirst gadj [compile gterms (unhex f)] now (unhex t)))
+     | none => ((), "bad-op"))
+  | ["fmt", f] =>
+    let cf := compile gterms (unhex f)
+    ((), s!"layout={hex (dateMap gterms (unhex f))} rx={hex cf.rxText} loc={b2s cf.hasLocation} year={b2s cf.hasYear} nodate={b2s cf.noDate} rxok={b2s cf.rx.isSome} layok={b2s cf.layout.supported}")
+  | ["tparse", l, v] =>
+    (match timeParse (unhex l) (unhex v) with
+     | .ok c => ((), s!"ok 0 {showCivil c}")
+     | .err => ((), "err")
+     | .unsupported => ((), "unsupported 0 2"))
+  | ["tformat", l, y, mo, d, h, mi, s, ns, wd] =>
+    (match y.toNat?, mo.toNat?, d.toNat?, h.toNat?, mi.toNat?, s.toNat?, ns.toNat?, wd.toNat? with
+     | some y, some mo, some d, some h, some mi, some s, some ns, some wd =>
+       (match formatLayout (Layout.ofBytes (unhex l)) ⟨y, mo, d, h, mi, s, ns, wd⟩ with
+        | some b => ((), s!"text {hex b}")
+        | none => ((), "none"))
+     | _, _, _, _, _, _, _, _ => ((), "bad-op"))
+  | ["find", r, t] =>
+    (match parseRegexp (unhex r) with
+     | none => ((), "unsupported 0 1")
+     | some rx =>
+       match find rx (unhex t) with
+       | some m => ((), s!"m {hex m}")
+       | none => ((), "nomatch"))
+  | _ => ((), "bad-op")
+
+end C20Driver
+
+def main (args : List String) : IO Unit := Driver.run C20Driver.step () args
